@@ -104,8 +104,16 @@ def aim(rng, kinds, op, reg, focus):
         want = ('List', 'Table', 'Tree', 'Tuple')
     elif op in ('cc', 'ap', 'rs', 'cl'):
         want = ('Array', 'List', 'String', 'Table', 'Tree', 'Tuple')
-    elif op in ('sl', 'en', 'ma', 'zp'):
+    elif op in ('sl', 'en', 'ma', 'zp', 'xs'):
         want = ('Array', 'List')
+    elif op == 'xb':
+        want = ('Array',)
+    elif op == 'xz':
+        want = ('List',)
+    elif op == 'xr':
+        want = ('String',)
+    elif op == 'xl':
+        want = ('Float', 'String')
     elif op in ('fi',):
         want = ('Array', 'List', 'Table', 'Tree')
     elif op in ('po', 'pt', 'pa'):
@@ -116,6 +124,15 @@ def aim(rng, kinds, op, reg, focus):
     if not c:
         return reg
     return focus if (focus in c and rng.random() < .5) else rng.choice(c)
+
+
+EXTENDED = bool(os.environ.get('C18_EXTENDED'))
+if EXTENDED:
+    # operations that are in contract but hit defects of other properties still open on this head; to be switched on
+    # once the repairs of C07 (D3), C11 (D9, D11, D12, F4), C15 (D7, D8, F6) and C16 (D6) are merged
+    OBS += ['xb', 'xs', 'xs', 'xz', 'xl']
+    MUT += ['xr']
+    FREE += ['xt', 'xn', 'xg', 'xg']
 
 
 def gen_wl(rng, nops):
@@ -156,8 +173,8 @@ def gen_wl(rng, nops):
         elif x < .80:
             op = rng.choice(OBS)
             reg = aim(rng, kinds, op, reg, focus)
-            if op in ('cm', 'zp'):
-                same = [q for q, kd in kinds.items() if (kd == kinds.get(reg) or (op == 'zp' and kd.split(':')[0] in ('Array', 'List', 'Table', 'Tree'))) and q != reg]
+            if op in ('cm', 'zp', 'xz'):
+                same = [q for q, kd in kinds.items() if (kd == kinds.get(reg) or (op == 'xz' and kd.split(':')[0] == 'List') or (op == 'zp' and kd.split(':')[0] in ('Array', 'List', 'Table', 'Tree'))) and q != reg]
                 kd0 = kinds.get(reg, '')
                 if not same and kd0.split(':')[0] in COPYABLE and rng.random() < .7:
                     y0 = rng.choice([q for q in range(NREG) if q != reg])
